@@ -157,7 +157,7 @@ FIRING = [
     ("research-candles-in-caller-order", "jesse/research/backtest.py", "    trading_candles_dict = {k: copied_candles[k] for k in ordered_keys}\n", "    trading_candles_dict = {k: v for k, v in copied_candles.items()}\n", ["C11"]),
     ("fast-chunk-longer-than-a-day", BT, "    return np.gcd.reduce(consider_time_frames + [1440])\n", "    return np.gcd.reduce(consider_time_frames)\n", ["C16", "C12", "C07"]),
     ("cancel-clears-store-after-hooks", "jesse/strategies/Strategy.py", "        if not jh.is_unit_testing() and not jh.is_live():\n            store.orders.storage[f'{self.exchange}-{self.symbol}'].clear()\n\n        self._broadcast('route-canceled')\n\n        self.on_cancel()\n", "        self._broadcast('route-canceled')\n\n        self.on_cancel()\n\n        if not jh.is_unit_testing() and not jh.is_live():\n            store.orders.storage[f'{self.exchange}-{self.symbol}'].clear()\n", ["C05"]),
-    ("flip-close-not-reported", "jesse/models/Position.py", "                        if self.strategy:\n                            self.strategy._on_updated_position(order)\n                        # what is left", "                        # what is left", ["C06", "C03"]),
+    ("flip-close-not-reported", "jesse/models/Position.py", "                        if self.strategy:\n                            self.strategy._on_updated_position(order)\n                        if held is not None:", "                        if held is not None:", ["C06", "C03"]),
     ("oversize-exit-booked-whole", "jesse/store/state_completed_trades.py", "        if p is not None and p.qty != 0 and p.qty * qty < 0 and abs(qty) > abs(p.qty):\n            qty = abs(p.qty)\n", "", ["C06"]),
     ("normal-simulator-clock-not-advanced", BT, "        store.app.time = first_candles_set[i][0] + 60_000\n\n        # add candles", "        # add candles", ["C01", "C02"]),
     ("flip-rest-not-held-during-close", "jesse/models/Position.py", "                            held.append(np.array([diff_qty, price]))\n", "                            pass\n", ["C03"]),
